@@ -471,7 +471,13 @@ class DataPack:
             )
 
         commands = self.parse_function_token(token, tokenizer, prefix)
-        if not force_create_func and len(commands) == 1 and NEW_LINE not in commands[0]:
+        # a single *empty* command (a statement that expands to nothing) cannot stand after `run`: it needs a function
+        if (
+            not force_create_func
+            and len(commands) == 1
+            and commands[0]
+            and NEW_LINE not in commands[0]
+        ):
             return commands[0]
 
         count = self.get_count(name)
